@@ -110,6 +110,14 @@ let parse_op (t : toks) : op option =
   | "withdraw" -> let o = nz t in let p = nz t in let ok = nb t in Some (OWithdraw (o, p, ok))
   | "transfer" -> let f = nz t in let to_ = nz t in let a = nz t in Some (OTransfer (f, to_, a))
   | "endblock" -> let dt = nz t in Some (OEndBlock dt)
+  (* keeper API driven by the owning module: no ValidateBasic flag *)
+  | "modupd" ->
+      let tx = nz t in let idx = nz t in let w = nz t in let provs = nlist t in let thr = nz t in
+      let cap = ncoins t in let timeout = nz t in let freq = nz t in let total = nz t in
+      Some (OModUpdate ((tx, idx), w, provs, thr, cap, timeout, freq, total))
+  | "modpause" -> let tx = nz t in let idx = nz t in let w = nz t in Some (OModPause ((tx, idx), w))
+  | "modstart" -> let tx = nz t in let idx = nz t in let w = nz t in Some (OModStart ((tx, idx), w))
+  | "modkill" -> let tx = nz t in let idx = nz t in let w = nz t in Some (OModKill ((tx, idx), w))
   | "query" | "export" -> None
   | k -> failwith ("unknown op " ^ k)
 
